@@ -325,7 +325,10 @@ type caseIn struct {
 	Dist  int
 	Salt  int
 	Opts  int // optDumpPlan | optPrintActions
-	TMode int // committer / author timestamps: 0 = growing with the number (one minute apart), else planlib.TimesFor(TMode)
+	TMode int // committer / author timestamps: tmode % 100: 0 = growing with the number (one minute apart), 1..6 planlib.TimesFor,
+	// 7..11 extraTimes (r4.go: the future of the wall clock, the ends of the domain); tmode / 100 = 1: zone offsets, author
+	// date != committer date, odd bytes in the names (r4.go)
+	Twins []twin // pairs of commits whose real hashes share a prefix (r4.go)
 }
 
 // build writes the history into a fresh in-memory repository: the commits outside the analysed set
@@ -339,11 +342,16 @@ func build(in caseIn) (*git.Repository, []*object.Commit) {
 		}
 	}
 	specs := make([]synth.CommitSpec, 0, next+g.N)
-	files := []synth.FileSpec{{Path: "f", Data: []byte("x\n")}}
+	files := theFiles
 	when := func(i int) time.Time { return time.Unix(synth.BaseTime+1000+int64(i)*60, 0) }
-	if in.TMode > 0 {
-		// deterministic in (TMode, Salt, N); mode 0 of TimesFor (no timestamp) does not exist for real commits
-		ts := pl.TimesFor(in.TMode, g.N, rand.New(rand.NewSource(int64(in.Salt)*31+int64(g.N))))
+	tm, zm := in.TMode%100, in.TMode/100
+	// deterministic in (TMode, Salt, N); mode 0 of TimesFor (no timestamp) does not exist for real commits
+	rng := rand.New(rand.NewSource(int64(in.Salt)*31 + int64(g.N)))
+	if tm >= firstExtraTime {
+		abs := extraTimes(tm, g.N, rng, time.Now().Unix())
+		when = func(i int) time.Time { return time.Unix(abs[i], 0) }
+	} else if tm > 0 {
+		ts := pl.TimesFor(tm, g.N, rng)
 		when = func(i int) time.Time { return time.Unix(pl.TimeBase+int64(ts[i]), 0) }
 	}
 	for k := 0; k < next; k++ {
@@ -351,8 +359,9 @@ func build(in caseIn) (*git.Repository, []*object.Commit) {
 			AuthorWhen: time.Unix(synth.BaseTime+int64(k), 0), Message: fmt.Sprintf("s%d ext%d", in.Salt, k), Files: files})
 	}
 	for i := 0; i < g.N; i++ {
-		specs = append(specs, synth.CommitSpec{AuthorName: "u", AuthorEmail: "u@x",
-			AuthorWhen: when(i), Message: fmt.Sprintf("s%d c%d", in.Salt, i), Files: files})
+		sp := synth.CommitSpec{Message: fmt.Sprintf("s%d c%d", in.Salt, i), Files: files}
+		signature(&sp, i, zm, when(i), rng)
+		specs = append(specs, sp)
 	}
 	for _, e := range g.Edges {
 		p := next + e[1]
@@ -360,6 +369,19 @@ func build(in caseIn) (*git.Repository, []*object.Commit) {
 			p = -1 - e[1]
 		}
 		specs[next+e[0]].Parents = append(specs[next+e[0]].Parents, p)
+	}
+	if len(in.Twins) > 0 {
+		ps := g.Parents()
+		var isAnc func(a, b int) bool // a is a proper ancestor of b
+		isAnc = func(a, b int) bool {
+			for _, p := range ps[b] {
+				if p == a || (p > a && isAnc(a, p)) {
+					return true
+				}
+			}
+			return false
+		}
+		twinMessages(specs, next, in.Twins, isAnc)
 	}
 	repo, all := synth.BuildRepo(specs)
 	return repo, all[next:]
@@ -429,7 +451,19 @@ func runCase(in caseIn) []Sx {
 		es[i] = L(I(e[0]), I(e[1]))
 	}
 	fs = append(fs, T("edges", es...))
-	fs = append(fs, T("obs", T("ranks", Ints(ranks).List...), T("run", A(status)), T("log0", sh.logs[0]...), T("log1", sh.logs[1]...)))
+	obs := []Sx{T("ranks", Ints(ranks).List...), T("run", A(status)), T("log0", sh.logs[0]...), T("log1", sh.logs[1]...)}
+	if len(in.Twins) > 0 {
+		// the pairs asked for, and what the search achieved: the number of leading hex digits the two real hashes share
+		ts := make([]Sx, len(in.Twins))
+		got := make([]Sx, len(in.Twins))
+		for i, t := range in.Twins {
+			ts[i] = L(I(t.A), I(t.B), I(t.K))
+			got[i] = L(A(byNum[t.A].Hash.String()), A(byNum[t.B].Hash.String()), I(commonHex(byNum[t.A].Hash, byNum[t.B].Hash)))
+		}
+		fs = append(fs, T("twins", ts...))
+		obs = append(obs, T("twinhashes", got...))
+	}
+	fs = append(fs, T("obs", obs...))
 	return fs
 }
 
@@ -651,6 +685,14 @@ func main() {
 			if f, ok := cs.Field("tmode"); ok {
 				in.TMode = f.Args()[0].Int()
 			}
+			if f, ok := cs.Field("twins"); ok {
+				for _, x := range f.Args() {
+					t := twin{x.List[0].Int(), x.List[1].Int(), x.List[2].Int()}
+					if t.A >= 0 && t.A < t.B && t.B < in.G.N {
+						in.Twins = append(in.Twins, t)
+					}
+				}
+			}
 			if in.G.N >= 1 {
 				ins = append(ins, in)
 			}
@@ -674,23 +716,22 @@ func main() {
 		}
 		return o
 	}
-	tmode := func() int {
-		if c.Rng.Intn(2) == 0 {
-			return 0
-		}
-		return 1 + c.Rng.Intn(pl.NumTimeModes-1)
-	}
+	tmode := func() int { return tm(c.Rng) }
 	// exhaustive: every DAG on <= 5 commits x hibernation distance 0..3 (hash order: whatever the salt gives)
 	for n := 1; n <= 5; n++ {
 		for m := 0; m < pl.NumMasks(n); m++ {
 			for d := 0; d <= 3; d++ {
 				g := pl.FromParents(pl.DagFromMask(n, m), pl.Identity(n))
 				ins = append(ins, caseIn{Kind: fmt.Sprintf("ex%d", n), G: g, Dist: d, Salt: c.Rng.Intn(1 << 20),
-					Opts: (m + d) % 4, TMode: (m/4 + d) % pl.NumTimeModes})
+					Opts: (m + d) % 4, TMode: (m/4+d)%numTimeModes + 100*((m/2+d/2)%2)})
 			}
+			// every DAG also with dates in the future of the wall clock / at the ends of the domain, x distance x options x zones
+			ins = append(ins, caseIn{Kind: fmt.Sprintf("exfut%d", n), G: pl.FromParents(pl.DagFromMask(n, m), pl.Identity(n)), Dist: m % 4,
+				Salt: c.Rng.Intn(1 << 20), Opts: (m / 4) % 4, TMode: firstExtraTime + m%(numTimeModes-firstExtraTime) + 100*((m/5)%2)})
 		}
 	}
 	flush()
+	twinStreams(c, &ins, flush)
 	// thorough: every DAG on 6 commits, one distance each
 	if c.Tier == "thorough" {
 		for m := 0; m < pl.NumMasks(6); m++ {
@@ -757,6 +798,10 @@ func main() {
 		}
 		for _, sh := range pl.ScaleShapes {
 			mk(sh, 1000+c.Rng.Intn(25))
+		}
+		// decimal widths of branch indexes / item counts (R4-5), with the plan dump and the action trace on
+		for _, n := range []int{9, 10, 11, 99, 100, 101} { // 999 / 1000 / 1001: the plan stream, and the 10^3 cases above
+			c.Emit(runScale(scaleIn{"starmerge", n, c.Rng.Intn(3), 2, int64(c.Rng.Intn(1 << 30)), c.Rng.Intn(3), 3})...)
 		}
 		if c.Thorough() {
 			for _, sh := range []string{"comb", "diamonds", "roots", "ladder", "ffchain", "starmerge", "star"} {
